@@ -158,9 +158,16 @@ def config_unchanged(env, cls):
     elif cls == 'RSP_full':
         objs = [(Sv.RandomizedSketchProjectPseudoinverse(block_size=4, max_iter=1, test_sketch_size=1), (2, 1))]
     elif cls == 'Hybrid':
+        # sketch size larger than n, kernels replaced by no-ops: compute() itself is what may write to the object
+        objs = [(Sv.HybridRSPNewtonSchulz(r=4, p=2, T=1, max_iter=1), (2, 1)), (Sv.HybridRSPNewtonSchulz(r=2, p=3, T=2, max_iter=2), (3, 3))]
+        if env.symbolic:
+            for o, _ in objs:
+                o._rsp_step_column = lambda A, X: X
+                o._ns_hyperpower_right = lambda A, X: X
+    elif cls == 'Hybrid_full':
         objs = [(Sv.HybridRSPNewtonSchulz(r=1, p=2, T=1, max_iter=1), (2, 1))]
     elif cls == 'CGNE':
-        objs = [(Sv.CGNEQSolver(max_iter=1), (2, 1))]
+        objs = [(Sv.CGNEQSolver(max_iter=1), (2, 1)), (Sv.CGNEQSolver(max_iter=1, preconditioner_rank=3), (2, 1))]
     for k, (obj, shape) in enumerate(objs):
         before = {k_: v_ for k_, v_ in vars(obj).items() if not callable(v_)}
         if cls == 'QGMRES':
@@ -282,8 +289,8 @@ def cells():
                          ('pinv', 'a', 'quick'), ('gmres_real', 'a', 'quick'), ('gmres', 'a', 'thorough'), ('imaging', 'a', 'quick')]:
         out.append(Cell('no_mutation[%s]' % g, 'c14:no_mutation', dict(group=g), domain=dom, tier=tier, timeout_s=1800, q_timeout_ms=10000, twin=False,
                         bounds='small symbolic inputs (<= 3x3)'))
-    for cls in ('QGMRES', 'NS', 'RSP', 'RSP_full', 'Hybrid', 'CGNE'):
-        out.append(Cell('config_unchanged[%s]' % cls, 'c14:config_unchanged', dict(cls=cls), domain='a', tier='thorough' if cls == 'RSP_full' else 'quick', timeout_s=1800, q_timeout_ms=10000, twin=False,
+    for cls in ('QGMRES', 'NS', 'RSP', 'RSP_full', 'Hybrid', 'Hybrid_full', 'CGNE'):
+        out.append(Cell('config_unchanged[%s]' % cls, 'c14:config_unchanged', dict(cls=cls), domain='a', tier='thorough' if cls in ('RSP_full', 'Hybrid_full') else 'quick', timeout_s=1800, q_timeout_ms=10000, twin=False,
                         bounds='one call on a small symbolic problem per configuration'))
     for first, second in [(1, 3), (2, 3), (3, 1), (1, 2), (3, 3)]:
         out.append(Cell('history[QGMRES,n=%d then n=%d]' % (first, second), 'c14:history', dict(cls='QGMRES', first=first, second=second), domain='z',
